@@ -80,7 +80,9 @@ void harness(void) {
 	r = bn_export_be_bin(&bn, FLAGS, buf, BS, &ret);
 #else
 #ifdef KF_EXPORT_LE_BIN_TRUNC	/* known finding: buffer shorter than digits*size -> wrong fit test (truncated value / UB shift / spurious error) */
+#if BS > 0
 	V_ASSUME(!((size_t)(DG) * sizeof(bn_digit_t) > (size_t)(BS)));
+#endif
 #endif
 	r = bn_export_le_bin(&bn, FLAGS, buf, BS, &ret);
 #endif
